@@ -17,11 +17,11 @@ def run(ctx):
     drv16 = ctx.build("c16")
     T = 3600
     # MC: both algorithms against the set-level definition on every stack within the bounds
-    ctx.model_check("state/MCFlatIter", "state/MCFlatIterThorough" if ctx.thorough else "state/MCFlatIter",
-                    timeout=3 * T, workers=4, name="MCFlatIter")
+    if not ctx.thorough:     # (the thorough emit run below checks the same invariants on the larger bounds)
+        ctx.model_check("state/MCFlatIter", "state/MCFlatIter", timeout=3 * T, workers=4, name="MCFlatIter")
     # R: emitted cases on the real iterators
     res = ctx.model_check("state/MCFlatIter", "state/MCFlatIterEmitThorough" if ctx.thorough else "state/MCFlatIterEmit",
-                          timeout=3 * T, workers=4, tags=("CASE",), name="MCFlatIter-emit")
+                          timeout=4 * T, workers=6 if ctx.thorough else 4, tags=("CASE",), name="MCFlatIter-emit")
     cases = res.lines.get("CASE", [])
     if not cases:
         raise InfraError("no cases emitted")
@@ -32,7 +32,7 @@ def run(ctx):
     import importlib.util
     spec = importlib.util.spec_from_file_location("check_C16", os.path.join(os.path.dirname(__file__), "C16.py"))
     c16 = importlib.util.module_from_spec(spec); spec.loader.exec_module(c16)
-    bs = c16.behaviours(ctx, "state/MCPathDBSim", ctx.pick(30, 300), 16, "MBT-PathDB-for-iterators")
+    bs = c16.behaviours(ctx, "state/MCPathDBSim", ctx.pick(15, 300), 16, "MBT-PathDB-for-iterators")
     bp = os.path.join(ctx.scratch, "behaviours.json")
     write_json(bp, bs)
     ctx.drive(drv16, ["-mode", "replay", "-iter", "-in", bp], name="c16-replay-iter", timeout=T)
